@@ -666,7 +666,7 @@ pub fn gen(rng: &mut Rng, thorough: bool, out: &mut Vec<String>) {
                 continue;
             }
             k += 1;
-            let dk = DOM_CLASSES[(k * 7 + vi) % DOM_CLASSES.len()];
+            let dk = DOM_CLASSES[(k * 7) % DOM_CLASSES.len()];
             let tag = g.tag(n);
             let d = dom(dk, n, g.r);
             let v = vals_for(vk, tag, &d, g.r);
